@@ -89,3 +89,13 @@ Theorem C05_engine_free_list_records_exactly_the_unused_pages : forall st : Engi
     ((2 <= x)%N /\ (x < Engine.d_np st)%N) /\ ~ In x (EngineRefines.live_of st (EngineOwnDefs.Rof st)).
 Proof. exact EngineNoLeak.flids_exact. Qed.
 Print Assumptions C05_engine_free_list_records_exactly_the_unused_pages.
+
+(* ---- the per-file checker's tree verdict accepts every file image the engine model produces: Tree.bucket_wf (the tree half of
+   inv_check: shape, separators, key order, equal depth, element bounds), run with exactly the fuels inv_check passes, on the
+   encoded bytes of any reachable state ---- *)
+From Jamm Require Codec Tree EngineSpillDepth EngineReadBridge EngineReadFull.
+Theorem C05_file_checker_accepts_engine_files : forall st pad rd P, EngineSpillDepth.db_okd st -> (0 < P)%N ->
+  EngineReadBridge.BytesLevel.file_encodes pad rd P (Engine.d_disk st) (EngineOwnDefs.Rof st) ->
+  Tree.bucket_wf (N.to_nat (Engine.d_np st)) rd P (Engine.d_np st) (Engine.d_root st) = Codec.Ok true.
+Proof. exact EngineReadFull.FileChecker.state_bucket_wf. Qed.
+Print Assumptions C05_file_checker_accepts_engine_files.
